@@ -51,7 +51,10 @@ THEOREMS = [
         "fsolve_full_solves fsolve_full_va rfBlock_solves rbBlock_solves elBlockUnc_solves elBlockCoup_solves "
         "fdBlock_solves fd_incrb_rows colFD_solves colSU_solves "
         # Props/C02g: solvepsd uncertainty factors
-        "applyUf_rows frfRec_with_uf solvePsd_with_uf"
+        "applyUf_rows frfRec_with_uf solvePsd_with_uf "
+        # Props/C02i: incrb / rf_disp_only at the level of the whole column
+        "rfVals_options rfVals_length rbAcc_length rbVals_options elValsCoup_length elValsSU_rows "
+        "colSU_options colFD_options"
     ).split()
 ]
 TRUSTED = [
@@ -96,9 +99,9 @@ ASSUMPTIONS = [
 PARTIAL = (
     "the coupled elastic block rests on the eigen-decomposition specification (hypothesis hcoup of colSU_solves = the "
     "relations of frfCoupled_solves: A U = U Lambda in partitioned form and the U^-1 partitions; residuals measured per "
-    "case, not proved); colSU_solves / colFD_solves are for incrb = 'dva', rf_disp_only = False, W != 0 (the other "
-    "option values are covered row-wise by incrb_table, incrb_table_direct, fd_incrb_rows, frfRb_zero_freq, rf_rows / "
-    "rfBlock_solves, not re-assembled into one full-size statement); the loop over frequencies and the pre_eig "
+    "case, not proved); the full-size equation (colSU_solves / colFD_solves) is stated for incrb = 'dva', rf_disp_only = "
+    "False, W != 0, and every other option value / W = 0 is related to that column entry by entry (colSU_options, "
+    "colFD_options, frfRb_zero_freq) rather than by a separate full-size equation; the loop over frequencies and the pre_eig "
     "transforms phi^T F, phi d are tied by correspondence only; floating-point accuracy is measured, not proved"
 )
 MANIFEST = {
@@ -117,7 +120,10 @@ MANIFEST = {
     "findings F8, F27, F28, F36 are evaluated instances). Scatter: every row of d, v, a is written exactly once by "
     "its own block (scatter_covers) and the assembled column satisfies the full-size block-diagonal-by-partition "
     "equation row by row (fsolve_full_solves); colSU_solves / colFD_solves carry this from the constructor state "
-    "through the block solves to the returned column of SolveUnc.fsolve / FreqDirect.fsolve. solvepsd: response PSD "
+    "through the block solves to the returned column of SolveUnc.fsolve / FreqDirect.fsolve, and colSU_options / "
+    "colFD_options show that for every incrb subset, both rf_disp_only values and every W the returned column is "
+    "that column with exactly the excluded letters cleared on the rigid-body rows and v, a cleared on the "
+    "residual-flexibility rows iff rf_disp_only. solvepsd: response PSD "
     "= sum_i PSD_i |H_i|^2, linear and non-negative, RMS^2 = trapezoid area >= 0; rbduf / elduf multiply exactly the "
     "rigid-body / elastic rows and enter the PSD squared (solvePsd_with_uf). The same definitions are executed at a "
     "pair-of-doubles complex type and compared with SolveUnc.fsolve, FreqDirect.fsolve and solvepsd over the whole "
